@@ -197,6 +197,16 @@ def run(prog, rep, tier='quick', config='default'):
                     tr = (vals != [0]) if vals is not None else (0 in (neg or []))
                     if any(c.callee.endswith('Option::<T>::is_none') and (mir.provenance(g, c.args[0]).params & set(cur_params)) for c in d.calls) and tr:
                         guarded = True
+                    fl = (vals == [0]) if vals is not None else False
+                    if any(c.callee.endswith('Option::<T>::is_some') and (mir.provenance(g, c.args[0]).params & set(cur_params)) for c in d.calls) and fl:
+                        guarded = True
+                    # `match found_curr { None => .. }` / `match (found_curr, found_fx) { (None, None) => .. }`: the None arm of the discriminant
+                    dl = mir.op_local(discr) if isinstance(discr, dict) and 'k' in discr else None
+                    dd = g.single_def(dl) if dl is not None else None
+                    if dd and dd[2] == 'stmt' and dd[3]['r']['rv'] == 'discr' and vals == [0] and not neg and \
+                            re.search(r'^&*std::option::Option<portfolio::model::currency::Currency>', dd[3]['r']['pl'].get('t') or g.ty.get(dd[3]['r']['pl']['l'], '')) and \
+                            (mir.provenance(g, dd[3]['r']['pl']).params & set(cur_params)):
+                        guarded = True
                 k = '%s|no-currency-means-no-rate-only' % g.name
                 if guarded:
                     rep.ok('R1e', k, where=g.where(s), fn=g.name, detail='"no currency/rate pair" is returned only when no currency was given')
